@@ -4,11 +4,23 @@ META = {
     "explanation": "On every path of the real bus_dispatch / bus_dispatch_matches / send_one_message: monitors are offered the message (bus_transaction_capture) after "
                    "the sender was stamped and before the policy gate can refuse it; refused broadcasts are captured as error replies; a monitor that sends anything is "
                    "disconnected and nothing of its message is routed.",
-    "outside": ["bus_transaction_capture itself (monitor list x matchmaker)", "bus_connection_be_monitor (release of names, rules, pending replies)",
+    "outside": [
                 "end-to-end equality of other clients' observations with and without monitors"],
 }
 def _other(pid):
     p = os.path.join(os.path.dirname(__file__), pid + ".py")
     spec = importlib.util.spec_from_file_location("vfjobs_x_" + pid, p); m = importlib.util.module_from_spec(spec); m.Job = Job; spec.loader.exec_module(m); return m
 def jobs(tier):
-    return _other("C03").dispatch_jobs("C18.placement")
+    J = _other("C03").dispatch_jobs("C18.placement")
+    ENV = ["assert_stubs.c", "mem.c", "pool_lock.c", "msg_model.c", "msg_build.c"]
+    for mon, sel in ((0, 0), (1, 0), (1, 1), (2, 2), (3, 0), (3, 1), (3, 2), (3, 3)):
+        J.append(Job(name=f"capture.M{mon}S{sel}", group="C18.capture", harness="harness/C09_pending.c", defines={"P": 0, "OP": 5, "MON": mon, "SEL": sel}, real=["dbus/dbus-list.c"], env=ENV,
+                     checks="assert", unwind=7, unwindset=["strcmp.0:48"], timeout=600, encodes=["bus_transaction_capture", "bus_transaction_send", "bus_transaction_execute_and_free"],
+                     stubs=["monitors' matchmaker = selection given by the shape", "send = ghost log"], bounds=f"monitors present mask {mon}, selected mask {sel}; message symbolic",
+                     shape=f"capture, monitors {mon}, selected {sel}"))
+    for p in (0, 1, 2):
+        J.append(Job(name=f"be_monitor.P{p}", group="C18.be_monitor", harness="harness/C09_pending.c", defines={"P": p, "OP": 6}, real=["dbus/dbus-list.c"], env=ENV, checks="assert",
+                     unwind=7, unwindset=["strcmp.0:48"], timeout=600, encodes=["bus_connection_be_monitor", "bcd_add_monitor_rules", "bcd_drop_monitor_rules", "bus_connection_drop_pending_replies"],
+                     stubs=["bus_service_remove_owner = ghost, may fail at call k", "matchmakers = ghost counters"],
+                     bounds=f"0..2 owned names, ordinary rules present or not, {p} pending replies, rule addition / name release may fail", shape=f"become monitor, {p} pending replies"))
+    return J
